@@ -23,6 +23,8 @@ def run(ctx: Ctx) -> None:
     t16_losses.run_module_functional(ctx)
     t16_losses.run_module_norm(ctx)
     t16_losses.run_invariances(ctx)
+    t16_losses.run_wlcc(ctx)
+    ctx.floor("T16.wlcc", 2)
     with ctx.parallel():  # (each obligation builds its own environment)
         t16_losses.run_mi_symmetry(ctx)
     ctx.floor("T16.mi-symmetry", 12)
@@ -68,6 +70,9 @@ def mutants(prog):
         ("ncc: means over the whole batch", L, "ncc_loss", "source_mean = source.mean(dim=1, keepdim=True)", "source_mean = source.mean()", "T16.invariance"),
         ("mi: lower histogram bound from the input only", L, "mi_loss", "vmin = torch.min(input.min(), target.min()).item()", "vmin = input.min().item()", "T16.mi-symmetry"),
         ("mi: target marginal over the wrong axis", L, "mi_loss", "p_target = p_joint.sum(dim=1)", "p_target = p_joint.sum(dim=2)", "T16."),
+        ("wlcc: joint mask from the source mask only", L, "wlcc_loss", "mask = source_mask.mul(target_mask)", "mask = source_mask", "T16.wlcc"),
+        ("wlcc: target mean weighted by the source mask", L, "wlcc_loss", "target_mean = local_mean(target, target_mask)", "target_mean = local_mean(target, source_mask)", "T16.wlcc"),
+        ("wlcc: weighted mean not normalised", L, "wlcc_loss", "return a.div_(b)", "return a", "T16.wlcc"),
     ]
     for name, mod, fn, old, new, expect in specs:
         ov = source_sub(prog, mod, fn, old, new)
